@@ -522,6 +522,11 @@ func stateFoundObjectKeyBegin(s *Scanner, c byte) state {
 		s.switchToComment()
 		return scanContinue
 	}
+	if s.annotation == annotationNone {
+		// The next property begins: like for the next array item, the ban set by the
+		// closing bracket of a preceding non-empty array ends here.
+		s.allowAnnotation = true
+	}
 	if c == '@' {
 		return beginKeyShortcut(s)
 	}
@@ -634,6 +639,10 @@ func stateFoundArrayItemBegin(s *Scanner, c byte) state {
 	if s.isCommentStart(c) {
 		s.switchToComment()
 		return scanContinue
+	}
+	if s.annotation == annotationNone && bytes.IsNewLine(c) {
+		// A line break after the comma ends the ban like the next item does.
+		s.allowAnnotation = true
 	}
 
 	r := stateBeginValue(s, c)
@@ -898,6 +907,10 @@ func stateAfterObjectValue(s *Scanner, c byte) state {
 func stateAfterArrayItem(s *Scanner, c byte) state {
 	if s.isNewLine(c) {
 		s.found(lexeme.NewLine)
+		if s.annotation == annotationNone {
+			// Like after an object value: the ban ends with the line of the bracket.
+			s.allowAnnotation = true
+		}
 		return scanContinue
 	}
 	if bytes.IsBlank(c) {
